@@ -70,11 +70,13 @@ def _model_dict(m) -> dict:
 
 
 def _run_z3(smt2: str, timeout_s: float, seed: int = 0):
+    # the seed is a GLOBAL parameter of the binding: always set it (a worker process that retried one query with another
+    # seed would otherwise keep that seed for every later query, which made verdicts depend on scheduling)
+    z3.set_param("smt.random_seed", seed)
+    z3.set_param("sat.random_seed", seed)
     s = z3.Solver()
     s.set("timeout", int(timeout_s * 1000))
-    if seed:
-        s.set("random_seed", seed)
-        z3.set_param("smt.random_seed", seed)
+    s.set("random_seed", seed)
     s.from_string(smt2)
     t0 = time.time()
     r = s.check()
